@@ -114,12 +114,25 @@ def listing_exit(S, outcome):
         it.ctx.check(f"{name}/raises:only-ValueError-KeyError-IndexError", z3.BoolVal(ok), info={"props": ["C19"], "exc": en.name})
 
 
+def leap_year_local(fn):
+    """the counter of the `while not calendar.isleap(<y>): <y> -= 1` loop"""
+    import ast
+
+    loops = [n for n in ast.walk(fn) if isinstance(n, ast.While)]
+    ys = [n.target.id for lp in loops for n in ast.walk(lp) if isinstance(n, ast.AugAssign) and isinstance(n.target, ast.Name)]
+    if len(set(ys)) != 1:
+        raise KeyError("parse_ls_date: leap-year counter not identified")
+    return {"prev_leap_year": ys[0]}
+
+
 for _n, _k in (("parse_unix_mode", "str"), ("parse_ls_date", "str"), ("parse_list_line_unix", "bytes"), ("parse_list_line_windows", "bytes")):
     c = contract(CLIENT, f"BaseClient.{_n}", props=["C19"])
     c.setup = make_parser_setup(_n, _k)
     c.raises = {"BaseException": []}
     c.exit_hook = listing_exit
     c.opts = {"feas_timeout_ms": 0, "no_covers": True}
+    if _n == "parse_ls_date":
+        c.alias_resolver = leap_year_local
     if _n in ("parse_ls_date", "parse_list_line_unix"):
         c.loop(0 if _n == "parse_ls_date" else 0, LoopSpec(invariants=[("year-in-range", lambda S: z3.And(as_int(S.vars["prev_leap_year"]) >= -8, as_int(S.vars["prev_leap_year"]) <= 9999))]))
 
